@@ -17,7 +17,7 @@ sys.path.insert(0, str(VERIF))
 if (VERIF / ".deps").exists():
     sys.path.insert(0, str(VERIF / ".deps"))
 
-from hgv.worker import HarnessError, Worker  # noqa: E402
+from hgv.worker import HarnessError, Rejected, Worker  # noqa: E402
 
 
 @dataclass
@@ -108,7 +108,7 @@ def shard_main(args):
     deadline = t0 + budget_s
     st = {
         "cases": 0, "engine_runs": 0, "skipped_budget": 0, "nontrivial_hashes": set(), "labels": {}, "samples": [],
-        "buckets": {}, "known_hits": {}, "harness_error": None,
+        "buckets": {}, "known_hits": {}, "harness_error": None, "rejected": 0, "rejected_msg": None,
     }
     n_examples = max(1, mod.examples(tier) // n_shards)
 
@@ -117,7 +117,13 @@ def shard_main(args):
             st["skipped_budget"] += 1
             return
         before = ctx.engine_runs
-        res = mod.check(case, ctx)
+        try:
+            res = mod.check(case, ctx)
+        except Rejected as e:
+            st["rejected"] += 1
+            st["rejected_msg"] = str(e)[:300]
+            st["engine_runs"] += ctx.engine_runs - before
+            return
         st["cases"] += 1
         st["engine_runs"] += ctx.engine_runs - before
         for lb in res.labels:
@@ -265,6 +271,11 @@ def run_check(prop: str, tier: str, seed: int) -> int:
         print(f"HARNESS-ERROR property={prop}: {herr[0]}")
         return 2
     cases = sum(s["cases"] for s in shards)
+    rejected = sum(s["rejected"] for s in shards)
+    if rejected > 0.2 * max(1, cases + rejected):
+        msg = next((s["rejected_msg"] for s in shards if s["rejected_msg"]), "")
+        print(f"HARNESS-ERROR property={prop}: the tree refused {rejected} of {cases + rejected} programs the generator builds as valid: {msg}")
+        return 2
     engine_runs = sum(s["engine_runs"] for s in shards) + corpus_runs
     nontriv = set()
     labels = {}
@@ -320,7 +331,7 @@ def run_check(prop: str, tier: str, seed: int) -> int:
             "evaluations": engine_runs, "cases": cases, "distinct_nontrivial": len(nontriv), "rule": mod.RULE,
             "samples": samples, "labels": dict(sorted(labels.items())), "shards": n_shards,
             "shard_seeds": [s["seed"] for s in shards], "skipped_for_budget": sum(s["skipped_budget"] for s in shards),
-            "corpus_replayed": len(corpus_results), "known_finding_hits": known_hits,
+            "corpus_replayed": len(corpus_results), "known_finding_hits": known_hits, "programs_refused_by_tree": rejected,
             "tree_fingerprint": info.get("fingerprint"), "recompiled_tus": info.get("recompiled", []),
             "worker_crashes": sum(s["worker_crashes"] for s in shards),
         },
